@@ -15,7 +15,7 @@ from ..seq import Unroll, cosim
 
 PROP = "C21"
 LEVEL = "model_checking"
-TECHNIQUE = "BMC from reset against a z3 reference model (ideal array + per-port queue of <=2 pending reads); one query per (cycle, obligation), earlier cycles as proven lemmas; pysim replay"
+TECHNIQUE = "BMC from reset against a z3 reference model (ideal array + per-port queue of <=2 pending reads); one query per cycle, obligations of earlier cycles as already-proven lemmas; amaranth.sim replay"
 BOUNDS = {
     "quick": "transparent x read_on_resp x {1r1w, 2r2w} x granularity {None,1}, depth 4, 2-bit data, lib.memory.Memory; plus depth 3 (not a power of two) "
              "and granularity 2 of 4 bits; BMC 7 cycles from reset (6 for 2r2w), all enables/addresses/data/masks",
